@@ -21,6 +21,7 @@ pub fn run_stream(ctx: &mut Ctx, name: &str) {
 			concat_stream(ctx);
 		},
 		"big" => big_stream(ctx),
+		"hist" => crate::hist::hist_stream(ctx),
 		"like" => crate::like::like_stream(ctx),
 		"bulk" => bulk_stream(ctx),
 		"append" => crate::append::append_stream(ctx),
@@ -283,7 +284,7 @@ pub fn dec_answer<T: Cat>(bs: &[u8]) -> (String, Option<(T, usize)>) {
 	}
 }
 
-pub fn enc_answer<T: Encode>(v: &T) -> (String, Option<Vec<u8>>) {
+pub fn enc_answer<T: Encode + ?Sized>(v: &T) -> (String, Option<Vec<u8>>) {
 	match catch_unwind(AssertUnwindSafe(|| v.encode())) {
 		Ok(b) => (hex_or_dash(&b), Some(b)),
 		Err(_) => ("panic".into(), None),
